@@ -23,7 +23,7 @@ ASSUMPTIONS = [
     "when the exception reaches the caller, 'stop' has nothing left to observe",
 ]
 ENUM_EXHAUSTIVE = {
-    "thorough": "63 policies x 2 routes x 10 override settings x 5 error kinds x 4 offending-line patterns x 3 component positions",
+    "thorough": "63 policies x 2 routes x 10 override settings x 5 error kinds x (4 offending-line patterns x 3 component positions + 1 header-row-at-line-0 case)",
 }
 
 FLAGS = ["raise", "collect", "stop", "fail", "print", "quiet"]
@@ -55,7 +55,10 @@ def _all_cases():
                     for bad in BADS:
                         for place in range(3):
                             yield {"policy": pol, "route": route, "override": ov,
-                                   "kind": kind, "bad": bad, "place": place}
+                                   "kind": kind, "bad": bad, "place": place, "hdr": False}
+                    # the header row itself (physical line 0) is scanned and offends
+                    yield {"policy": pol, "route": route, "override": ov,
+                           "kind": kind, "bad": [2], "place": 1, "hdr": True}
 
 
 def enumerate_cases(tier, seed):
@@ -88,9 +91,10 @@ def run_case(case, sb):
     comps.insert(case["place"], comp)
     ov = case["override"]
     comment = f"~ validation-mode: {ov} ~ " if ov else ""
-    text = f'{comment}${rel}[1*][ push("tr", line_number()) {" ".join(comps)} ]'
+    hdr = case.get("hdr", False)
+    text = f'{comment}${rel}[{"*" if hdr else "1*"}][ push("tr", line_number()) {" ".join(comps)} ]'
     res = real.run_path(text, policy=attr)
-    exp = errpolicy.expect(pol, ov, [b + 1 for b in bad], list(range(1, 6)))
+    exp = errpolicy.expect(pol, ov, ([0] if hdr else []) + [b + 1 for b in bad], list(range(0 if hdr else 1, 6)))
     labels = [f"kind:{case['kind']}", f"route:{case['route']}", f"override:{ov}",
               "policy:" + "+".join(pol)] if False else [f"kind:{case['kind']}", f"route:{case['route']}", f"override:{ov}"]
     labels += ["flag:" + f for f in pol]
@@ -111,8 +115,8 @@ def run_case(case, sb):
         problems.append({"printed_expected": exp["printed"], "observed": res["printouts"][:3]})
     if not raised and not exp["raises"]:
         ids = [ln[0] for ln in res["lines"]]
-        must = [f"d{n-1}" for n in exp["returned_must"]]
-        mustnot = [f"d{n-1}" for n in exp["returned_must_not"]]
+        must = [("id" if n == 0 else f"d{n-1}") for n in exp["returned_must"]]
+        mustnot = [("id" if n == 0 else f"d{n-1}") for n in exp["returned_must_not"]]
         if any(m not in ids for m in must) or any(m in ids for m in mustnot) or len(ids) != len(set(ids)):
             problems.append({"returned_must": must, "returned_must_not": mustnot, "observed": ids})
     ok = not problems
